@@ -4,7 +4,7 @@
 # usage: ./refcheck.sh <worktree> [Cnn ...]
 wt=$1; shift
 cd /repo && git diff --quiet || { echo "repo dirty"; exit 2; }
-(cd $wt && git diff -- $(git diff --name-only | grep -v _test.go)) > /tmp/refcheck.patch
+(cd $wt && git add -N $(git ls-files --others --exclude-standard | grep '\.go$' | grep -v _test.go) 2>/dev/null; git diff -- $(git diff --name-only | grep -v _test.go)) > /tmp/refcheck.patch
 git -C /repo apply /tmp/refcheck.patch || { echo "cannot apply"; exit 2; }
 (cd /repo && GOFLAGS=-mod=mod GOPROXY=off GOSUMDB=off GOTOOLCHAIN=local go build ./... ) || echo "BUILD FAILS"
 props=${@:-$(cd /verif && python3 -c "import checkcfg; print(' '.join(sorted(checkcfg.PROPS)))")}
@@ -12,5 +12,5 @@ for p in $props; do
   out=$(cd /verif && ./check $p 2>&1 | grep -E "^(VIOLATION|OK|KNOWN)")
   echo "$out" | grep -q "^OK" && ! echo "$out" | grep -q VIOLATION || echo "$p: $out"
 done
-git -C /repo checkout -- .
+git -C /repo checkout -- . ; git -C /repo clean -fdq -- cmd pkg internal
 echo "refcheck done: $(wc -l < /tmp/refcheck.patch) patch lines"
